@@ -250,6 +250,51 @@ Section Roundtrip.
     eapply same_obs_trans; [apply reexported_same; assumption | apply reexported_same; assumption].
   Qed.
 
+  (* ---------- the same for the tree with the repair proposed for D19d ([cfg_gt true]; [cfg_gt false] is the
+     configuration above): the re-read problem has the same objects and numeric goals, so the additional type check of
+     numeric-goal arguments passes again ---------- *)
+  Lemma goal_typed_reexported gt sp : goal_typed gt dom (reexported sp) = goal_typed gt dom sp.
+  Proof. reflexivity. Qed.
+
+  Lemma one_round_t gt sp :
+    repr_ok sp ->
+    tokens_ok sp = true -> safe_repeats sp = true -> sp_name sp <> "" -> wf_code_t gt num dom sp = true ->
+    parse_problem (cfg_gt gt) num dom (export_problem repr_text None (d_name dom) (built num dom sp))
+      = Ok (built num dom (reexported sp)).
+  Proof.
+    intros Hrepr Htok Hnr Hname Hwf. unfold wf_code_t in Hwf. apply andb_true_iff in Hwf. destruct Hwf as [Hwf Hty].
+    pose proof (read_export num repr_text dom sp Hrepr Htok Hname) as Hread.
+    pose proof (parse_problem_spec_t gt num dom Hdom Hnum _ _ Hread) as Hp.
+    destruct (reexported_wf sp Hrepr Hwf Hnr) as [Hwf2 _]. unfold wf_code_t in Hp.
+    rewrite Hwf2, goal_typed_reexported, Hty in Hp. exact Hp.
+  Qed.
+
+  Theorem C09_roundtrip_t_lemma gt e sp pb :
+    read_problem num e = Some sp -> repr_ok sp -> safe_repeats sp = true -> sp_name sp <> "" ->
+    parse_problem (cfg_gt gt) num dom e = Ok pb ->
+    exists pb', parse_problem (cfg_gt gt) num dom (export_problem repr_text None (d_name dom) pb) = Ok pb' /\
+                same_obs pb' pb /\
+    exists pb'', parse_problem (cfg_gt gt) num dom (export_problem repr_text None (d_name dom) pb') = Ok pb'' /\
+                 same_obs pb'' pb.
+  Proof.
+    intros Hread Hrepr Hnr Hname Hparse.
+    pose proof (parse_problem_spec_t gt num dom Hdom Hnum e sp Hread) as Hp.
+    destruct (wf_code_t gt num dom sp) eqn:Hwft; simpl in Hp; [|destruct Hp as [k Hp]; rewrite Hp in Hparse; discriminate].
+    rewrite Hp in Hparse. injection Hparse as <-.
+    pose proof Hwft as Hsplit. unfold wf_code_t in Hsplit. apply andb_true_iff in Hsplit. destruct Hsplit as [Hwf Hty].
+    pose proof (read_problem_tokens_ok num e sp Hread) as Htok.
+    exists (built num dom (reexported sp)). split; [apply one_round_t; assumption|].
+    split; [apply reexported_same; assumption|].
+    destruct (reexported_wf sp Hrepr Hwf Hnr) as [Hwf2 Hnr2].
+    pose proof (repr_ok_reexported sp Hrepr Hnr) as Hrepr2.
+    assert (Htok2 : tokens_ok (reexported sp) = true).
+    { eapply read_problem_tokens_ok. apply (read_export num repr_text dom sp Hrepr Htok Hname). }
+    assert (Hwft2 : wf_code_t gt num dom (reexported sp) = true).
+    { unfold wf_code_t. rewrite Hwf2, goal_typed_reexported, Hty. reflexivity. }
+    exists (built num dom (reexported (reexported sp))). split; [apply one_round_t; assumption|].
+    eapply same_obs_trans; [apply reexported_same; assumption | apply reexported_same; assumption].
+  Qed.
+
   (* empty sections stay empty *)
   Lemma atom_in_nil_all (l : list atom) : (forall x, atom_in x l = false) -> l = [].
   Proof. destruct l as [|a r]; [reflexivity|]. intros H. specialize (H a). simpl in H. rewrite atom_eqb_refl in H. discriminate. Qed.
